@@ -1184,4 +1184,57 @@ theorem planOperation_no_field_twice {env : Env} {fuel : Nat} {operation : Strin
     subst this; exact hns)
   simpa [asked, waiting] using this
 
+/-! ## Part 6: no step without a client field (C13) -/
+
+theorem buildSteps_nonempty (env : Env) (fuel D : Nat) :
+    ∀ (k next : Nat) (queue : List Payload) (acc res : List Step), Pending env D queue → 1 ≤ next →
+      (∀ s ∈ acc, s.id ≠ 0 → 1 ≤ cfcL s.sel) → buildSteps env fuel k next queue acc = .ok res →
+      ∀ s ∈ res, s.id ≠ 0 → 1 ≤ cfcL s.sel
+  | 0, _, [], acc, res, _, _, ha, h => by simp only [buildSteps] at h; cases h; exact ha
+  | 0, _, _ :: _, _, _, _, _, _, h => by simp only [buildSteps] at h; cases h
+  | _ + 1, _, [], acc, res, _, _, ha, h => by simp only [buildSteps] at h; cases h; exact ha
+  | k + 1, next, p :: rest, acc, res, hp, hn, ha, h => by
+    have hns := hp.ns p (List.mem_cons_self ..)
+    have hu := hp.un p (List.mem_cons_self ..)
+    have hd := hp.dp p (List.mem_cons_self ..)
+    have han := hp.an p (List.mem_cons_self ..)
+    have hrest : Pending env D rest :=
+      ⟨fun o ho => hp.ns o (List.mem_cons_of_mem _ ho), fun o ho => hp.un o (List.mem_cons_of_mem _ ho),
+       fun o ho => hp.dp o (List.mem_cons_of_mem _ ho), fun o ho => hp.an o (List.mem_cons_of_mem _ ho)⟩
+    simp only [buildSteps] at h
+    split at h
+    · cases h
+    · rename_i sel st he
+      obtain ⟨hpend, _⟩ := extract_pending hns hu hd hrest he
+      have hkept : 1 ≤ cfcL sel := extract_kept env fuel _ _ _ _ he hns han
+      refine buildSteps_nonempty env fuel D k _ _ _ res hpend (by omega) ?_ h
+      intro s hs hid
+      rcases List.mem_append.1 hs with hs | hs
+      · exact ha s hs hid
+      · have : s = _ := List.mem_singleton.1 hs
+        subst this; exact hkept
+
+/-- **every step other than the root asks its service for at least one of the client's fields**: the planner never
+    makes a step that only carries plumbing (a hop that fetches nothing the client asked for) -/
+theorem planOperation_no_empty_step {env : Env} {fuel : Nat} {operation : String} {sels : List Sel} {steps : List Step}
+    (hns : noSpreadL sels = true) (hu : unmarkedL sels = true) (h : planOperation env fuel operation sels = .ok steps) :
+    ∀ s ∈ steps, s.id ≠ 0 → 1 ≤ cfcL s.sel := by
+  unfold planOperation at h
+  cases fuel with
+  | zero => simp only [buildSteps] at h; cases h
+  | succ k =>
+    simp only [buildSteps] at h
+    split at h
+    · cases h
+    · rename_i sel st he
+      have hempty : Pending env (depthL sels) [] :=
+        ⟨fun o ho => (by cases ho), fun o ho => (by cases ho), fun o ho => (by cases ho), fun o ho => (by cases ho)⟩
+      obtain ⟨hpend, _⟩ := extract_pending (p := { parent := none, location := "", parentType := rootTypeOf operation, ip := [], sel := sels, frags := [] })
+        hns hu (Nat.le_refl _) hempty he
+      refine buildSteps_nonempty env (k + 1) (depthL sels) k _ _ _ steps hpend (by omega) ?_ h
+      intro s hs hid
+      simp only [List.nil_append, List.mem_singleton] at hs
+      subst hs
+      exact absurd rfl hid
+
 end Pl
